@@ -207,3 +207,76 @@ macro_rules! uf_bij {
         }
     };
 }
+
+// ---- asymmetric two-phase uninterpreted function (reference phase A / subject phase B)
+//
+// uf1ab!(modname, ArgTy, ResTy, concrete_path): calls made in phase A (the default; at most 16) are logged and kept
+// mutually consistent; after `modname::phase_b()` every call returns a fresh value constrained to agree with every
+// phase-A entry on equal arguments, and is NOT logged: consistency among phase-B calls is dropped.  The constraint set is
+// a subset of the functional-consistency constraints, each of which is true of the real function, so proofs remain sound
+// (a dropped constraint can only yield a spurious counterexample, which native replay rejects).  Use: compute the small
+// reference (one block) in phase A, then run the large subject (a 10- or 19-block batch) in phase B: n_A * n_B
+// constraints instead of (n_A + n_B)^2 / 2.  The log is 16 scalar statics selected by comparing a concrete counter with
+// constants (no arrays, no pointers).
+#[allow(unused_macros)]
+macro_rules! uf1ab {
+    ($m:ident, $A:ty, $B:ty, $concrete:path) => {
+        uf1ab!(@impl [e00 e01 e02 e03 e04 e05 e06 e07 e08 e09 e10 e11 e12 e13 e14 e15], $m, $A, $B, $concrete);
+    };
+    (@impl [$($e:ident)+], $m:ident, $A:ty, $B:ty, $concrete:path) => {
+        pub mod $m {
+            #[allow(unused_imports)]
+            use super::*;
+            $(
+                #[cfg(kani)]
+                #[allow(non_upper_case_globals)]
+                pub mod $e {
+                    pub static mut I: $A = 0;
+                    pub static mut O: $B = 0;
+                }
+            )+
+            #[cfg(kani)]
+            pub static mut N: usize = 0;
+            #[cfg(kani)]
+            pub static mut PHASE_B: bool = false;
+            pub fn phase_b() {
+                #[cfg(kani)]
+                unsafe {
+                    PHASE_B = true;
+                }
+            }
+            #[cfg(kani)]
+            pub fn call(x: $A) -> $B {
+                unsafe {
+                    let y: $B = kani::any();
+                    let n = N;
+                    let log = !PHASE_B;
+                    let mut idx = 0usize;
+                    let mut stored = !log;
+                    let mut ok = true;
+                    $(
+                        if idx < n {
+                            ok &= ($e::I != x) | (y == $e::O);
+                        } else if log && idx == n {
+                            $e::I = x;
+                            $e::O = y;
+                            stored = true;
+                        }
+                        idx += 1;
+                    )+
+                    let _ = idx;
+                    kani::assert(stored, "VERIF_UF_CAPACITY");
+                    kani::assume(ok);
+                    if log {
+                        N = n + 1;
+                    }
+                    y
+                }
+            }
+            #[cfg(not(kani))]
+            pub fn call(x: $A) -> $B {
+                $concrete(x)
+            }
+        }
+    };
+}
